@@ -27,7 +27,7 @@ import (
 	"verif/checks/c07/kc"
 )
 
-const rule = "keys: for every encoding Go can marshal (PKCS#1, SEC1, PKCS#8, PKIX, PKCS#1-public for RSA-1024 [thorough: and RSA-2048], P-224/256/384/521, Ed25519, X25519; a 3-certificate chain Ed25519->RSA->P-256; JWK JSON of RSA, EC P-256/384/521, OKP Ed25519/X25519, oct) EVERY truncation and, at every byte position, each of the mutations {0x00, 0xff, +1, flip high bit, flip low bit}, applied to the PEM text and to the DER (re-armoured), is fed to ParseKey (5 content types), DecodePEMPrivateKey, DecodePEMCertificates(Chain), IsValidPEM, GetPEM; whatever still parses goes through EncodePrivateKey / EncodeX509(Chain) / PublicKeysEqual and through SerializeKey + Encrypt/Decrypt/Sign/Verify under every algorithm name. JWK objects additionally get every single and pair substitution of member values from an 18-value alphabet. Raw keys: every length 0..64 x 7 content classes. non-trivial = the input was accepted by the parser it was given to."
+const rule = "keys: for every encoding Go can marshal (PKCS#1, SEC1, PKCS#8, PKIX, PKCS#1-public for RSA-1024 [thorough: and RSA-2048], P-224/256/384/521, Ed25519, X25519; a 3-certificate chain Ed25519->RSA->P-256; JWK JSON of RSA, EC P-256/384/521, OKP Ed25519/X25519, oct) EVERY truncation and, at every byte position, each of the mutations {0x00, 0xff, +1, flip high bit, flip low bit}, applied to the PEM text and to the DER (re-armoured), is fed to ParseKey (5 content types), DecodePEMPrivateKey, DecodePEMCertificates(Chain), IsValidPEM, GetPEM; whatever still parses goes through EncodePrivateKey / EncodeX509(Chain) / PublicKeysEqual and through SerializeKey + Encrypt/Decrypt/Sign/Verify under every algorithm name. JWK objects additionally get every single and pair substitution of member values from an 18-value alphabet. Raw keys: every length 0..64 x 16 content classes (incl. blank-only, blank-led and blank-trailed input) and every 1-/2-byte string over 15 sniffed characters. non-trivial = the input was accepted by the parser it was given to."
 
 var contentTypes = []string{"", "application/json", "application/x-pem-file", "application/pkcs8", "text/plain"}
 
@@ -481,16 +481,36 @@ func areas(thorough bool) []*guard.Area {
 		{"brace", func(n int) []byte { return []byte(pre("{", n, "")) }},
 		{"dashes", func(n int) []byte { return []byte(pre("-----", n, "")) }},
 		{"urlsafe", func(n int) []byte { return []byte(strings.Repeat("-_", n)[:n]) }},
+		// blank input and blank-led input: what a secret file holding only a
+		// newline, or a key pasted with leading blank lines, looks like
+		{"space", func(n int) []byte { return []byte(strings.Repeat(" ", n)) }},
+		{"tab", func(n int) []byte { return []byte(strings.Repeat("\t", n)) }},
+		{"newline", func(n int) []byte { return []byte(strings.Repeat("\n", n)) }},
+		{"crlf", func(n int) []byte { return []byte(strings.Repeat("\r\n", n)[:n]) }},
+		{"blank-mix", func(n int) []byte { return []byte(strings.Repeat(" \t\r\n\v\f", n)[:n]) }},
+		{"blank+brace", func(n int) []byte { return []byte(strings.Repeat("\n ", n)[:n] + "{") }},
+		{"blank+dashes", func(n int) []byte { return []byte(strings.Repeat("\n ", n)[:n] + "-----BEGIN") }},
+		{"blank+A", func(n int) []byte { return []byte(strings.Repeat("\n ", n)[:n/2] + strings.Repeat("A", n-n/2)) }},
+		{"A+blank", func(n int) []byte { return []byte(strings.Repeat("A", n-n/2) + strings.Repeat("\n ", n)[:n/2]) }},
 	}
 	rawArea := &guard.Area{
 		Name:   "keys-raw-and-objects",
 		Chunks: 2,
-		Bound:  "ParseKey on raw byte strings of every length 0..64 x 7 content classes x 5 content types; EncodePrivateKey / jwk.FromRaw+SerializeKey on every key object type; PublicKeysEqual on all ordered pairs of public key objects",
+		Bound:  "ParseKey on raw byte strings of every length 0..64 x 16 content classes (incl. blank-only and blank-led input) x 5 content types, plus every 1- and 2-byte string over the 15 characters the format sniffing inspects; EncodePrivateKey / jwk.FromRaw+SerializeKey on every key object type; PublicKeysEqual on all ordered pairs of public key objects",
 		Run: func(c *guard.Ctx, ci int) {
 			if ci == 0 {
 				for _, cl := range classes {
 					for n := 0; n <= 64; n++ {
 						consume(c, cl.gen(n), fmt.Sprintf("raw class=%s len=%d", cl.name, n))
+					}
+				}
+				// every one- and two-byte input whose bytes come from the
+				// characters the format sniffing looks at
+				sniff := []byte(" \t\r\n{}[]\"-=A\x00\xff")
+				for _, a := range sniff {
+					consume(c, []byte{a}, fmt.Sprintf("raw single byte %q", a))
+					for _, b := range sniff {
+						consume(c, []byte{a, b}, fmt.Sprintf("raw two bytes %q", []byte{a, b}))
 					}
 				}
 				return
